@@ -191,6 +191,12 @@ def main(argv=None):
 
 def replay(mod, pid, path):
     rec = json.load(open(path))
+    if rec["cfg"] is None:
+        st = explore.Stats()
+        mod.post(rec.get("tier", "quick"), int(os.environ.get("VERIF_SEED", "0") or 0), st)
+        hit = (rec["clause"], rec["shape"]) in st.viol
+        print("VIOLATION property=%s replay=%s clause=%s shape=%s" % (pid, path, rec["clause"], rec["shape"]) if hit else "recorded violation does not occur on this tree")
+        return 1 if hit else 0
     ch, res = describe(mod, rec["cfg"], rec["choices"], rec.get("budget"))
     for lab in ch.labels:
         print("  ", lab)
